@@ -165,6 +165,7 @@ def check_writes(run: Run, scratch: Path, model, table):
     observed_bad = defaultdict(int)
     stats = Counter()
     injected = set()
+    zip_append_seen = set()
     with ctx.Pool(WORKERS, initializer=_init_worker) as pool:
         # phase 1: dry runs discover the boundaries and the new content
         dry = pool.map(D.execute, [(c, pre, 0, "dry", str(work)) for c in cases for pre in ("absent", "Old")], chunksize=1)
@@ -235,6 +236,8 @@ def check_writes(run: Run, scratch: Path, model, table):
             run.fail(key, detail, what=f"{c.name} {r['mode']}{'(' + r['variant'] + ')' if r['variant'] else ''} at {detail['boundary_call']}: dest={out['dest']} tmp={out['tmp']} (before: {r['pre']})")
             if c.group:
                 observed_bad[(c.group, r["pre"], out["how"], out["fcall"], out["dest"], D.coarse(out["tmp"]), tuple(broken))] += 1
+            elif c.writer == "open_" and out["how"] != "died":
+                zip_append_seen.add((r["pre"], out["how"], out["fcall"], out["dest"], D.coarse(out["tmp"])))
         if c.group:
             tr = D.abstract_trace(r, newp.get(c), out)
             if tr is None:
@@ -260,6 +263,11 @@ def check_writes(run: Run, scratch: Path, model, table):
     run.note("observed_violations_not_predicted_by_model", unpredicted[:20])
     for m in missing:
         run.model_drift(f"counterexample of the transcribed protocol not reproduced on the real code: {m}")
+    if zip_append_seen:
+        # open_(x.zip, "w") is the in-place-append protocol (known finding R5): the outcomes the spec rejects for its
+        # "zip_append" configuration are the ones observed on the real code
+        pred = {tuple(o) for o in run.extra.get("zip_append_rejected_outcomes", [])}
+        run.note("zip_append_rejected_outcomes_observed_on_open_zip", [len(pred & zip_append_seen), len(pred)])
     run.note("children", dict(stats))
     run.note("write_cases", len(cases) * 2)
     n = stats["dry"] + stats["kill"] + stats["fault"]
@@ -336,7 +344,7 @@ def check(run: Run):
         "one faulty call site per run (failing once, or again whenever the same call on the same path is re-issued); an OSError injected into the cleanup call itself (rmtree) is allowed to leave the temporary directory",
         "nested directories inside rmtree are not boundaries (their audit events carry relative paths)",
         "new content = what an un-faulted write to an absent destination leaves (content correctness is C06/C20's subject); compressed files are compared by payload",
-        "zip targets are not transcribed in AtomicWrite.tla (judged by outcome only, no trace validation)",
+        "zip targets: the destination state is the member sequence (Old byte-for-byte, New = exactly one member with the new payload, OldNew = previous members + new one); member names are not compared (the staged name is random); judged by outcome only, no trace validation; quick drives them with one one-shot and one persistent fault variant per boundary and without second-level kills",
         "resume: log files of the two runs differ by name and are not compared; inputs are processed serially",
         "resume on DataStoreSqlite (write_db, re-opened in mode 'a'): interrupted by KeyboardInterrupt between store writes only; a process kill inside "
         "sqlite's own file I/O or between the DELETE and INSERT statements of one write is not driven (sqlite raises no audit events for statements; "
